@@ -6,6 +6,8 @@ def main():
     rows = []
     for path in sys.argv[1:]:
         for r in json.load(open(path)):
+            if not r["name"].startswith(("c1", "c2")):
+                continue            # hand-written mutants only (seeds / benign: audit/*.json)
             for prop, c in r["checks"].items():
                 rows.append((r["name"], prop, r["tests"], c["rc"], c["wall"], c["first"]))
     rows.sort()
